@@ -12,11 +12,15 @@
 (*   reads        <<[path, n]>>: how often the reader was asked for a path *)
 (* UNIVERSE = "cross": the records are exactly UniverseIdsL(NV, SEED),     *)
 (* each once (asserted: a tool error otherwise); "part": some of them.     *)
-(* WhysL(d, obs) lists what contradicts the specification: an accepted     *)
-(* configuration rejected or behaving differently (module order of the     *)
-(* printing initialisers, which start() ran, which global a name meant), a *)
-(* configuration the specification rejects accepted, files read twice /    *)
-(* not at all / without being imported.  One REJECT line per such record.  *)
+(* The records are sorted by (n % NBaseL, w, n) (asserted), so that the    *)
+(* configurations that differ only in the order of the main file's import  *)
+(* statements are neighbours: GrpClasses(k) = their compile results.       *)
+(* WhysL(d, obs, grp) lists what contradicts the specification: a          *)
+(* configuration rejected although no name is handed on through `from`, an *)
+(* accepted one behaving differently (module order of the printing         *)
+(* initialisers, which start() ran, which global a name meant), a verdict  *)
+(* that depends on the order of the main file's imports, files read twice  *)
+(* / not at all / without being imported.  One REJECT line per record.     *)
 (***************************************************************************)
 EXTENDS SyltLayers, Json, IOUtils
 
@@ -37,6 +41,17 @@ ASSUME Universe = "cross" =>
     /\ Assert(Cardinality(RecIds) = N, <<"duplicate records", N, Cardinality(RecIds)>>)
     /\ Assert(RecIds = UniverseIdsL(NV, Seed), <<"the trace does not cover the universe", N, Cardinality(UniverseIdsL(NV, Seed))>>)
 
+SameGrp(i, j) == Rec[i].n % NBaseL = Rec[j].n % NBaseL /\ Rec[i].w = Rec[j].w
+KeyLt(i, j) == LET a == Rec[i].n % NBaseL
+                   b == Rec[j].n % NBaseL IN
+               a < b \/ (a = b /\ (Rec[i].w < Rec[j].w \/ (Rec[i].w = Rec[j].w /\ Rec[i].n < Rec[j].n)))
+ASSUME Assert(\A j \in 1..(N - 1) : KeyLt(j, j + 1), "the records are not sorted by (n % NBaseL, w, n)")
+RECURSIVE GrpLo(_)
+RECURSIVE GrpHi(_)
+GrpLo(j) == IF j > 1 /\ SameGrp(j - 1, j) THEN GrpLo(j - 1) ELSE j
+GrpHi(j) == IF j < N /\ SameGrp(j + 1, j) THEN GrpHi(j + 1) ELSE j
+GrpClasses(j) == {Rec[i].class : i \in GrpLo(j)..GrpHi(j)}
+
 WellFormed(j, c) ==
     LET r == Rec[j] IN
     /\ Assert(r.lines = [q \in DOMAIN c.files |-> c.files[q].lines], <<"import lines differ from the derived configuration", j>>)
@@ -53,7 +68,7 @@ TraceInit ==
 
 TraceJudge ==
     /\ st = "run"
-    /\ LET y == WhysL(d, Rec[k]) IN
+    /\ LET y == WhysL(d, Rec[k], GrpClasses(k)) IN
        IF y = {} THEN st' = "ok"
        ELSE st' = "fail" /\ PrintT(<<"REJECT", ToJson([rec |-> k, whys |-> y])>>)
     /\ UNCHANGED <<k, d>>
@@ -64,8 +79,9 @@ TraceSpec == TraceInit /\ [][TraceNext]_tvars
 TraceInv ==
     \* (in a "cross" run MC_Layers has just checked ConfigOKL for exactly these configurations: not repeated)
     /\ (st = "run" /\ Universe # "cross") => ConfigOKL(d)
-    /\ st = "ok" => /\ Rec[k].class = d.expect.class
-                    /\ d.accepted => Rec[k].prints = d.expect.prints /\ Rec[k].status = "done"
+    /\ st = "ok" => /\ Rec[k].class = "ok" \/ (d.free /\ Rec[k].class = "err")
+                    /\ Rec[k].class = "ok" => Rec[k].prints = d.expect.prints /\ Rec[k].status = "done"
+                    /\ Cardinality(GrpClasses(k)) = 1
                     /\ \A f \in Range(d.load) : ReadCount(Rec[k], f) <= 1 /\ (Rec[k].class = "ok" => ReadCount(Rec[k], f) = 1)
                     /\ \A f \in Range(Tree) \ Range(d.load) : ReadCount(Rec[k], f) = 0
 =============================================================================
